@@ -79,7 +79,7 @@ def lex_bin(data):
 
 def lex_elf(data):
     """ELF32/64 header, section table, .symtab; per the ELF specification."""
-    bad = {"ok": False, "entry": hl(0), "secs": [], "syms": []}
+    bad = {"ok": False, "entry": hl(0), "secs": [], "syms": [], "hdr": {"cls": 0, "ehsize": 0, "phoff": 0, "phentsize": 0, "phnum": 0, "shentsize": 0, "shnum": 0, "shoff": 0, "size": 0}}
     try:
         if data[:4] != b"\x7fELF":
             return bad
@@ -136,7 +136,10 @@ def lex_elf(data):
                 syms.append({"name": cstr(tab, name), "value": hl(value), "shndx": shndx})
         if entry >> 32:
             return bad
-        return {"ok": True, "entry": hl(entry), "secs": out_secs, "syms": syms}
+        cap = lambda v: min(v, (1 << 31) - 1)
+        hdr = {"cls": cls, "ehsize": ehsize, "phoff": cap(phoff), "phentsize": phentsize, "phnum": phnum, "shentsize": shentsize,
+               "shnum": shnum, "shoff": cap(shoff), "size": cap(len(data))}
+        return {"ok": True, "entry": hl(entry), "secs": out_secs, "syms": syms, "hdr": hdr}
     except (struct.error, IndexError):
         return bad
 
